@@ -125,3 +125,13 @@ func (db *DB) VerifResolve(meta byte, value []byte) ([]byte, error) {
 	}
 	return kv.SafeCopy(nil, val), nil
 }
+
+// VerifSetWatermarkWindow shrinks the oracle's watermark windows (call right
+// after Open, before the first transaction).
+func (db *DB) VerifSetWatermarkWindow(n int) {
+	if n <= 0 {
+		return
+	}
+	db.orc.txnMark.VerifSetWindow(n)
+	db.orc.readMark.VerifSetWindow(n)
+}
